@@ -14,6 +14,7 @@ import (
 	"os"
 	"os/exec"
 	"path/filepath"
+	"regexp"
 	"sort"
 	"strconv"
 	"strings"
@@ -22,14 +23,15 @@ import (
 )
 
 type propCfg struct {
-	pkg          string
-	race         bool // race detector is (part of) the oracle
-	quickShards  int
-	thorShards   int
-	quickTimeout time.Duration
-	thorTimeout  time.Duration
-	rule         string
-	assumptions  []string
+	pkg              string
+	race             bool // race detector is (part of) the oracle
+	quickShards      int
+	thorShards       int
+	quickTimeout     time.Duration
+	thorTimeout      time.Duration
+	crashIsViolation bool // a dying test process is itself a violation (C01, C17): replay = the case in flight
+	rule             string
+	assumptions      []string
 }
 
 func cfgFor(id string) (propCfg, bool) {
@@ -348,6 +350,17 @@ func run(id, tier string) int {
 			}
 		}
 		hasViolation := strings.Contains(r.stdout, "VIOLATION property=")
+		if r.exit != 0 && !hasViolation && !r.timedOut && cfg.crashIsViolation && looksLikeCrash(r.stderr+r.stdout) {
+			cur := filepath.Join(scratch, fmt.Sprintf("wd_%d", r.idx), "current.json")
+			if b, err := os.ReadFile(cur); err == nil {
+				dir := filepath.Join(verifDir, "replay", id)
+				os.MkdirAll(dir, 0o755)
+				path := filepath.Join(dir, fmt.Sprintf("crash-%d-%d.json", seed, r.idx))
+				os.WriteFile(path, b, 0o644)
+				violationLines = append(violationLines, fmt.Sprintf("VIOLATION property=%s replay=%s", id, path), "  detail: test process died (Go fatal error / unrecovered panic) while running the case:", "  "+tail(r.stderr, 12))
+				hasViolation = true
+			}
+		}
 		if r.exit != 0 && !hasViolation {
 			why := fmt.Sprintf("shard %d exit %d", r.idx, r.exit)
 			if r.timedOut {
@@ -423,6 +436,20 @@ func run(id, tier string) int {
 		return 2
 	}
 	return 0
+}
+
+func looksLikeCrash(out string) bool {
+	if strings.Contains(out, "out of memory") || strings.Contains(out, "cannot allocate memory") {
+		// memory exhaustion is not what the property is about - except a single absurd
+		// allocation request (>= 8 GiB), which means a corrupted size inside the engine
+		if m := regexp.MustCompile(`cannot allocate (\d+)-byte block`).FindStringSubmatch(out); m != nil {
+			if n, err := strconv.ParseUint(m[1], 10, 64); err == nil && n >= 8<<30 {
+				return true
+			}
+		}
+		return false
+	}
+	return strings.Contains(out, "fatal error:") || strings.Contains(out, "\npanic:") || strings.HasPrefix(out, "panic:") || strings.Contains(out, "[signal SIG")
 }
 
 func dedup(in []string) []string {
